@@ -136,4 +136,30 @@ example : GrammarForest exText [exRule] := by
   simpa [Tree.children] using this
 end
 
+/-- **The skipper's output is bounded**: the search list of a `Skip` node the `skip` pass creates never has more strings than
+`MAX_SKIP_STRINGS` (regenerated from skipper.rs; the statement fails to check when the bound is removed). Before the repair
+f10b39f a chain of `n` rules that mention the next one twice produced `2^n` strings in `2^n` steps. -/
+theorem skipper_bounded (rules : List Rule) (e : Expr) (l : List PestModel.LineCol.Str) (h : skipF rules e = .skip l)
+    (he : ∀ l', e ≠ .skip l') : ∃ c, PestModel.Gen.Consts.maxSkipStrings = some c ∧ l.length ≤ c := by
+  have hs : PestModel.Gen.Consts.maxSkipStrings.isSome = true := by decide
+  obtain ⟨c, hc⟩ := Option.isSome_iff_exists.1 hs
+  refine ⟨c, hc, ?_⟩
+  unfold skipF at h
+  split at h
+  · split at h
+    · rename_i x hx
+      split at h
+      · exact absurd h (by simp)
+      · rename_i hlong
+        subst h
+        simp only [skipTooLong, hc, decide_eq_true_eq] at hlong
+        omega
+    · exact absurd h (by simp)
+  · exact absurd h (he l)
+
+/-- not vacuous: a three-link chain is inlined into a `Skip` of 2^3 strings. -/
+example : skipF [⟨"c0", .normal, .choice (.ident "c1") (.ident "c1")⟩, ⟨"c1", .normal, .choice (.ident "c2") (.ident "c2")⟩,
+    ⟨"c2", .normal, .choice (.ident "c3") (.ident "c3")⟩, ⟨"c3", .normal, .str ['a']⟩]
+    (.rep (.seq (.negPred (.ident "c0")) (.ident "ANY"))) = .skip (List.replicate 8 ['a']) := by decide
+
 end PestModel.C09
